@@ -35,6 +35,7 @@ from vf import rt
 L = rt.envint("VF_L", 2)
 FIXOI = rt.envint("VF_ORDER", 0)      # subscription order of the listeners (index into ORDERS), fixed per condition
 DBG = rt.envint("VF_DBG", 0)
+PAUSEKIND = rt.envint("VF_PAUSEKIND", 0)   # split: run A paused by stop() from a handler (0) or by a bounded run (1)
 FIXRNR = rt.envint("VF_RNR", 1)       # replication number handed to the seed updater
 VMAX = rt.envint("VF_VMAX", 3)
 FAN = EventType("VF_C07_FAN")
@@ -64,10 +65,22 @@ class Worker(EventListener):
         m.simulator.schedule_event_rel(conv(d), m, "follow", PRIOS[1], who=self.idx)
 
 
+class Inspector(EventListener):
+    """subscribed first, unsubscribes itself at its first notification: the others must keep their order"""
+
+    def __init__(self, model):
+        self.model = model
+
+    def notify(self, event):
+        self.model.notified.append(-1)
+        self.model.prod.remove_listener(FAN, self)
+
+
 class FanModel(DSOLModel):
-    def __init__(self, sim, times, order, seed, rnr, pause_at):
+    def __init__(self, sim, times, order, seed, rnr, pause_at, bound=-1):
         super().__init__(sim)
         self.times, self.order, self.seed, self.rnr, self.pause_at = times, order, seed, rnr, pause_at
+        self.bound = bound
 
     def construct_model(self):
         sim = self.simulator
@@ -76,9 +89,10 @@ class FanModel(DSOLModel):
         self.stream = MersenneTwister(self.seed)
         SimpleStreamUpdater().update_seeds({"arrivals": self.stream}, self.rnr)
         self.tally = SimTally("draws", "draws", sim, producer=self.prod, event_type=DRAW)
-        self.workers = [Worker(self, i) for i in range(L)]
-        for i in self.order:
-            if i < L:
+        self.workers = [Worker(self, i) for i in range(NW())]
+        self.prod.add_listener(FAN, Inspector(self))
+        for i in (self.order if NW() <= 3 else list(range(NW()))):
+            if i < NW():
                 self.prod.add_listener(FAN, self.workers[i])
         for t in self.times:
             sim.schedule_event_abs(conv(t), self, "generate", PRIOS[1])
@@ -97,7 +111,12 @@ class FanModel(DSOLModel):
         self._tick(who)
 
 
-def run_once(times, order, seed, rnr, end, pause_at, counter0, hashvals, clock0):
+def NW():
+    """number of listeners: L in symbolic runs; the replay children use more (set / address effects need a few objects)"""
+    return int(os.environ.get("VF_REPLAY_L", L)) if rt.MODE == "replay" else L
+
+
+def run_once(times, order, seed, rnr, end, pause_at, counter0, hashvals, clock0, bound=-1):
     """one complete run under one environment; returns the observable outcome"""
     if rt.MODE == "symbolic":
         from vf import simstubs
@@ -117,12 +136,23 @@ def run_once(times, order, seed, rnr, end, pause_at, counter0, hashvals, clock0)
         for et in (ReplicationInterface.START_REPLICATION_EVENT, ReplicationInterface.END_REPLICATION_EVENT,
                    ReplicationInterface.WARMUP_EVENT, SimulatorInterface.TIME_CHANGED_EVENT):
             sim.add_listener(et, mon)
+        if bound >= 0:
+            try:
+                quiet(sim.run_up_to, conv(bound))       # pause at a time instead of at an event
+            except DSOLError:
+                pass
+            settle(sim)
         guard = 0
         while sim.run_state != RunState.ENDED and guard < 4:
             guard += 1
             quiet(sim.start)
             settle(sim)
         t = model.tally
+        if os.environ.get("VF_PAUSEKIND", "0") == "1":
+            # a pause at a TIME (bounded run) moves the clock to the bound by design (C03), which shows in which
+            # TIME_CHANGED notifications are needed afterwards; the property quantifies over pauses at events, so
+            # for this pause kind the time-changed entries are left out of the comparison
+            mon.log = [x for x in mon.log if x[0] != "TIME_CHANGED_EVENT"]
         return {"trace": model.trace, "notifications": mon.log, "draws": model.draws, "notified": model.notified,
                 "stream_seed": model.stream.seed(),
                 "stats": [t.n(), t.sum(), t.min(), t.max(), t.mean(), t.variance(), t.variance(False)],
@@ -148,7 +178,7 @@ spec = json.loads(sys.argv[1])
 for _ in range(spec["prior"]):
     SimEvent(0.0, _T(), "m")
 from harness import c07
-out = c07.run_once(spec["times"], spec["order"], spec["seed"], spec["rnr"], spec["end"], spec["pause_at"], 0, [0, 0], 0)
+out = c07.run_once(spec["times"], spec["order"], spec["seed"], spec["rnr"], spec["end"], spec["pause_at"], 0, [0, 0], 0, spec.get("bound", -1))
 print("DIGEST " + json.dumps(out, default=lambda o: float(o).hex() if isinstance(o, float) else repr(o)))
 os._exit(0)
 '''
@@ -158,6 +188,7 @@ def _child(spec, hashseed):
     env = dict(os.environ)
     env["PYTHONHASHSEED"] = str(hashseed)
     env["VF_MODE"] = "replay"
+    env["VF_REPLAY_L"] = "6"
     here = os.path.dirname(os.path.dirname(os.path.abspath(__file__)))
     p = subprocess.run([sys.executable, "-c", _CHILD % here, json.dumps(spec)], env=env, capture_output=True, text=True, timeout=120)
     lines = [l for l in p.stdout.splitlines() if l.startswith("DIGEST ")]
@@ -172,13 +203,15 @@ def _pick(i):
 
 
 def h_twin(times: List[int], oi: int, seed: int, rnr: int, end: int, pa: int, pb: int, ca: int, cb: int,
-           ha: List[int], hb: List[int], ka: int, kb: int, ui: List[int]) -> bool:
+           ha: List[int], hb: List[int], ka: int, kb: int, ui: List[int], ba: int = -1) -> bool:
     """
     pre: len(times) == 2 and times[0] == 0 and 0 <= times[1] <= VMAX
     pre: oi == FIXOI
     pre: seed == 3 and rnr == FIXRNR
     pre: end == VMAX
     pre: 0 <= pa <= 3 and pb == 0
+    pre: -1 <= ba < end and (ba < 0 or pa == 0)
+    pre: (PAUSEKIND == 0 and ba < 0) or (PAUSEKIND == 1 and pa == 0)
     pre: 0 <= ca <= 1000000 and 0 <= cb <= 1000000
     pre: len(ha) == 2 and len(hb) == 2
     pre: 0 <= ka <= 5 and 0 <= kb <= 5
@@ -190,8 +223,9 @@ def h_twin(times: List[int], oi: int, seed: int, rnr: int, end: int, pa: int, pb
     order = ORDERS[oi]
     if rt.MODE == "replay":
         outs = set()
-        for prior, hs, pause in ((0, 1, pa), (37, 2, pb), (5, 99, 0)):
-            outs.add(_child({"times": times, "order": order, "seed": seed, "rnr": rnr, "end": end, "pause_at": pause, "prior": prior}, hs))
+        for prior, hs, pause, bnd in ((0, 1, pa, -1), (37, 2, pb, -1), (5, 99, 0, ba), (1234, 7, 0, -1), (20000, 3, 0, -1)):
+            outs.add(_child({"times": times, "order": order, "seed": seed, "rnr": rnr, "end": end, "pause_at": pause, "prior": prior,
+                             "bound": bnd}, hs))
         if len(outs) != 1:
             return rt.fail("C07:runs-differ-between-processes", lambda: f"{len(outs)} different digests: " + " | ".join(sorted(outs))[:900])
         return True
@@ -200,14 +234,17 @@ def h_twin(times: List[int], oi: int, seed: int, rnr: int, end: int, pa: int, pb
     # the wall clock differs between the two runs by concrete amounts (a symbolic clock makes every polling
     # loop of the simulator a solver problem without adding anything: any dependence on the clock shows up
     # as a difference between the twins)
-    a = run_once(times, order, seed, rnr, end, pa, ca, ha, 0.0)
+    a = run_once(times, order, seed, rnr, end, pa, ca, ha, 0.0, ba)
     rngstub.install(us)
     b = run_once(times, order, seed, rnr, end, pb, cb, hb, 4321.75)
     for key in ("trace", "notifications", "draws", "stats", "clock", "ended", "stream_seed"):
         if not _eq(a[key], b[key]):
             return rt.fail("C07:twin-runs-differ-in-" + key, lambda: f"{a[key]} vs {b[key]}")
     exp = [i for i in order if i < L]
-    for n, who in enumerate(a["notified"]):
+    seen = [w for w in a["notified"] if w >= 0]
+    if a["notified"].count(-1) > 1:
+        return rt.fail("C07:unsubscribed-listener-notified-again", lambda: f"{a['notified']}")
+    for n, who in enumerate(seen):
         if who != exp[n % len(exp)]:
             return rt.fail("C07:listeners-not-notified-in-subscription-order", lambda: f"{a['notified']} subscription order {exp}")
     if not a["ended"]:
